@@ -41,7 +41,9 @@ func (*c13) Assumptions() []string {
 }
 func (*c13) CaseTimeout() time.Duration { return 300 * time.Second }
 
-var quoteDict = []string{"'", "\"", "\\", "$", "`", " ", "\t", "\n", "*", "?", "[", "]", "{", "}", "~", "=", "#", "!", "&", "|", ";", "<", ">", "(", ")", "%", "^", "a", "if", "then", "fi", "for", "x=y", "é", "日本", "\xff", "\xc3", "\xed\xa0\x80", "￾", "￿", "\U00010000", "\U0010FFFF", "\x7f", "\x01", "\x1b", "\r", "-n", "--", "$'", "${", "$("}
+var quoteDict = []string{"'", "\"", "\\", "$", "`", " ", "\t", "\n", "*", "?", "[", "]", "{", "}", "~", "=", "#", "!", "&", "|", ";", "<", ">", "(", ")", "%", "^", "a", "if", "then", "fi", "for", "x=y", "é", "日本", "\xff", "\xc3", "\xed\xa0\x80", "￾", "￿", "\U00010000", "\U0010FFFF", "\x7f", "\x01", "\x1b", "\r", "-n", "--", "$'", "${", "$(",
+	// boundaries of the UTF-8 encoding and of what decoders treat specially
+	"\u0080", "\u07ff", "\u0800", "\ud7ff", "\ue000", "\ufffc", "\ufffd", "\U0001FFFF", "\U000E0001", "\u00a0", "\u200b", "\u2028", "\ufeff"}
 
 func (p *c13) Gen(i int, r *rand.Rand) any {
 	if i < 128 {
@@ -51,8 +53,15 @@ func (p *c13) Gen(i int, r *rand.Rand) any {
 	for k := 0; k < 256; k++ {
 		var sb strings.Builder
 		for l := 1 + r.IntN(8); l > 0; l-- {
-			if r.IntN(4) == 0 {
+			if k := r.IntN(8); k < 2 {
 				sb.WriteByte(byte(1 + r.IntN(255)))
+			} else if k == 2 {
+				// any valid code point
+				cp := rune(1 + r.IntN(0x10FFFF))
+				if cp >= 0xD800 && cp <= 0xDFFF {
+					cp = 0xFFFD
+				}
+				sb.WriteRune(cp)
 			} else {
 				sb.WriteString(quoteDict[r.IntN(len(quoteDict))])
 			}
